@@ -239,7 +239,7 @@ def judge_table(ctx, tab, cfg, path, label, rng):
             okv = (isinstance(r, (int, float)) and not isinstance(r, bool) and (float(r) == v or (cut and val is not None and float(r) == val)))
         elif isinstance(v, bool):
             okv = isinstance(r, (bool, np.bool_)) and bool(r) == v
-        elif isinstance(v, int):
+        elif isinstance(v, (int, np.integer)):
             okv = isinstance(r, (int, np.integer)) and not isinstance(r, bool) and int(r) == v
         else:
             okv = isinstance(r, str) and r == str(v)
@@ -356,10 +356,17 @@ def run(ctx):
                 cfg = prev_cfg
                 cfg.simulation.thrown_events = int(cfg.simulation.thrown_events + 7)
                 cfg.detector.name = "reused " + str(i)
+                # scan idiom: `for e in np.arange(...): cfg...log_nu_energy = e` leaves numpy scalars in the
+                # configuration (no validation on assignment); they are ordinary finite numbers
+                npy = i % 10 == 9
                 if hasattr(cfg.simulation.spectrum, "log_nu_energy"):
-                    cfg.simulation.spectrum.log_nu_energy = 9.5
+                    cfg.simulation.spectrum.log_nu_energy = np.arange(9.5, 10.0, 0.25)[1] if npy else 9.5
                 else:
-                    cfg.simulation.spectrum.index = 2.75
+                    cfg.simulation.spectrum.index = np.float64(2.75) if npy else 2.75
+                if npy:
+                    cfg.simulation.thrown_events = np.int64(cfg.simulation.thrown_events)
+                    cfg.detector.optical.photo_electron_threshold = np.float64(12.5)
+                    ctx.count("numpy-scalars")
             prev_cfg = cfg
             tab = results_table.init(cfg)
             m = int(rng.choice([0, 1, 5, 40]))
@@ -476,7 +483,7 @@ def run(ctx):
             ctx.distinct.add(("cli", tuple(argv), os.path.basename(out)))
     finally:
         shutil.rmtree(work, ignore_errors=True)
-    for m in ("columns", "header", "complete", "reconstruct", "real-runs", "cli-run"):
+    for m in ("numpy-scalars", "columns", "header", "complete", "reconstruct", "real-runs", "cli-run"):
         ctx.require(m)
     return ctx.finish(
         rule="tables = results_table.init(config) + synthetic columns of every stored dtype (float64, float32, int64, 2-D EFields, Time) for seeded configurations (ASCII strings, finite numbers, both spectrum types, all cloud variants, lat != lon), one third with 17-significant-digit floats and two thirds with short-text floats (for which everything must be exact), plus tables returned by real small compute() runs in both modes; a case is a distinct (configuration, table)",
